@@ -551,6 +551,15 @@ func (e *Exec) knownCall(fr *Frame, st *State, x *ssa.Call, callee *ssa.Function
 		return e.appendAbstract(st, x, b, types.Typ[types.Uint8], n, func(h *Term, k string) string {
 			return fmt.Sprintf("(digbig %s %s %s)", recv.S, base.S, k)
 		}, false), true, true
+	case "strings.Contains", "strings.HasPrefix", "strings.HasSuffix", "strings.EqualFold":
+		// pure predicates of two strings (value semantics): an uninterpreted function of the two values,
+		// available to contract clauses under the same name (contains / hasprefix / hassuffix / equalfold)
+		f := "str_" + strings.ToLower(callee.Name())
+		if !e.declared[f] {
+			e.declared[f] = true
+			e.emit("(declare-fun %s (Int Int) Bool)", f)
+		}
+		return e.def(SBool, App(SBool, f, e.term(fr, st, x.Call.Args[0]), e.term(fr, st, x.Call.Args[1]))), true, true
 	case "strings.IndexByte", "strings.LastIndexByte", "strings.IndexRune", "strings.Index", "strings.LastIndex", "strings.IndexAny", "bytes.IndexByte":
 		r := e.fresh(SInt, "idx")
 		var ln *Term
